@@ -805,3 +805,12 @@ func (fi *FuncInfo) expandGuards(gs []Cond) ([]Cond, func()) {
 		}
 	}
 }
+
+// disjuncts splits a || b || c into its operands.
+func disjuncts(e ast.Expr) []ast.Expr {
+	e = ast.Unparen(e)
+	if b, ok := e.(*ast.BinaryExpr); ok && b.Op == token.LOR {
+		return append(disjuncts(b.X), disjuncts(b.Y)...)
+	}
+	return []ast.Expr{e}
+}
